@@ -204,9 +204,6 @@ class DULServiceProvider(threading.Thread):
             self._is_killed.set()
 
     def _check_network(self):
-        if self.state_machine.current_state == fsm.States.STA_13:
-            return self._close()
-
         if not self.dul_socket:
             return False
 
@@ -296,26 +293,6 @@ class DULServiceProvider(threading.Thread):
         except Exception:  # pylint: disable=broad-except
             # unknown PDU type or a PDU that cannot be decoded: unrecognized/invalid PDU
             self.event.append(fsm.Events.EVT_19)
-        return True
-
-    def _close(self):
-        # waiting for connection to close
-        if self.dul_socket is None:
-            return False
-
-        # wait for remote connection to close, without blocking: the ARTIM timer and the kill
-        # flag have to be looked at while the peer keeps its side open
-        try:
-            if not select.select([self.dul_socket], [], [], 0.05)[0]:
-                return False
-            if self.dul_socket.recv(self.max_pdu_length) != b'':
-                return False  # anything the peer still sends is ignored
-        except socket.error:
-            return False
-
-        self.dul_socket.close()
-        self.dul_socket = None
-        self.event.append(fsm.Events.EVT_17)
         return True
 
 
